@@ -19,6 +19,10 @@ def plan(tier, seed):
             if not q:
                 env["C15_NCUTS"] = 2
             conds.append(Cond("session-v%d-i%d-op%02d" % (ver, init, lo), F, "session", env=env, timeout=280 if q else 1800))
+            if "C15_FREEZE" in env and (not q or (ver, init) == (1, 2)):
+                # the same sessions with every status text served as a literal (an OK then has the shape 'OK (WARNINGS) {n}')
+                conds.append(Cond("session-lit-v%d-i%d-op%02d" % (ver, init, lo), F, "session", env=dict(env, C15_FORMTEXT=1),
+                                  timeout=280 if q else 1800))
     if not q:
         for ver, init in combos:
             conds.append(Cond("session2-v%d-i%d" % (ver, init), F, "session",
